@@ -1191,14 +1191,14 @@ func (d *HAMTDirectory) needsToSwitchToBasicDir(ctx context.Context, name string
 
 	operationSizeChange := 0
 	if entryToRemove != nil {
-		operationSizeChange -= d.linkSizeFor(entryToRemove)
+		operationSizeChange -= d.linkSizeFor(namedLink(name, entryToRemove))
 	}
 	if nodeToAdd != nil {
 		link, err := ipld.MakeLink(nodeToAdd)
 		if err != nil {
 			return false, err
 		}
-		operationSizeChange += d.linkSizeFor(link)
+		operationSizeChange += d.linkSizeFor(namedLink(name, link))
 	}
 
 	// We must switch if size and maxlinks are below threshold
